@@ -81,6 +81,8 @@ def gen_case(rng):
         H = (A + A.T) * (0.5 * hscale)
     H = 0.5 * (H + H.T)
     gscale = 10.0 ** rng.uniform(-3, 3)
+    if rng.random() < 0.06:
+        gscale = 10.0 ** rng.uniform(-13, -8)       # tiny model gradient (near a zero-residual solution)
     if J is not None and rng.random() < 0.5:
         r = rng.standard_normal(J.shape[0])
         g = 2.0 * J.T.dot(r)
